@@ -63,9 +63,17 @@ def _configs_for(spec):
 
 def gen_task(task):
     """worker: symbolically execute one lemma under one configuration -> serialisable obligations"""
-    path, lemma_name, cfg_index = task
+    path, lemma_name, cfg_index = task[:3]
+    limit = task[3] if len(task) > 3 else 300
+    task = tuple(task[:3])
     t0 = time.time()
     try:
+        import signal
+
+        def _alarm(sig, frm):
+            raise OutOfSubset("verification-condition generation exceeded its time limit of %ds (path explosion)" % limit)
+        signal.signal(signal.SIGALRM, _alarm)
+        signal.alarm(int(limit))
         from pyvc import prims
         prims.reset_names()
         eng = make_engine()
@@ -83,8 +91,9 @@ def gen_task(task):
                  "config": cfg["name"] if cfg else None, "file": path, "trivial": trivial,
                  "goal": str(ob.goal)[:300], "nconstraints": len(ob.constraints)}
             obs.append(d)
-            if ob.kind == "check" and ob.name not in covers:
-                covers[ob.name] = backend.to_smt2(ob.constraints, z3.BoolVal(False))
+            if ob.kind == "check" and len(covers.setdefault(ob.name, [])) < 8:
+                covers[ob.name].append(backend.to_smt2(ob.constraints, z3.BoolVal(False)))
+        signal.alarm(0)
         return {"task": task, "ok": True, "obligations": obs, "covers": covers, "paths": paths,
                 "functions": list(eng.repo.used.values()), "notes": sorted(eng.notes),
                 "gen_s": time.time() - t0, "feas_checks": eng.stats["feas_checks"]}
@@ -103,17 +112,28 @@ def solve_all(obs, timeout_s, both, jobs, seed):
 def check_covers(covers, jobs, seed):
     """vacuity guard: the path condition in front of each check name must be satisfiable."""
     names = list(covers)
-    tasks = []
-    for i, n in enumerate(names):
-        tasks.append((i, covers[n], "z3", 5000, False, seed))
-    status = {}
-    for idx, solver, st, dt, model in backend.run_tasks(tasks, jobs):
-        status[idx] = st
-    again = [(i, covers[names[i]], "cvc5", 15000, False, seed) for i in range(len(names)) if status.get(i) != "sat"]
-    for idx, solver, st, dt, model in backend.run_tasks(again, jobs):
-        if st in ("sat", "unsat"):
+    result = {n: "unsat" for n in names}
+    # try the recorded path conditions of each check name one after the other until one is satisfiable
+    for attempt in range(8):
+        tasks = []
+        for i, n in enumerate(names):
+            if result[n] != "sat" and attempt < len(covers[n]):
+                tasks.append((i, covers[n][attempt], "z3", 3000, False, seed))
+        if not tasks:
+            break
+        status = {}
+        for idx, solver, st, dt, model in backend.run_tasks(tasks, jobs):
             status[idx] = st
-    return {names[i]: status.get(i, "unknown") for i in range(len(names))}
+        again = [(t[0], t[1], "cvc5", 10000, False, seed) for t in tasks if status.get(t[0]) not in ("sat", "unsat")]
+        for idx, solver, st, dt, model in backend.run_tasks(again, jobs):
+            status[idx] = st
+        for idx, st in status.items():
+            n = names[idx]
+            if st == "sat":
+                result[n] = "sat"
+            elif st != "unsat" and result[n] != "sat":
+                result[n] = "unknown"
+    return result
 
 
 def load_known_findings():
@@ -129,6 +149,9 @@ def match_known(finding, prop, obname, witness):
         return False
     pat = finding.get("obligation", "")
     if pat and pat not in obname:
+        return False
+    pat2 = finding.get("obligation_check", "")
+    if pat2 and pat2 not in obname:
         return False
     cond = finding.get("witness_pred")
     if cond:
@@ -212,7 +235,7 @@ def main(argv=None):
             if args.configs:
                 idxs = idxs[:int(args.configs)]
             for ci in idxs:
-                tasks.append((path, spec.name, ci))
+                tasks.append((path, spec.name, ci, 300 if tier == "quick" else 1200))
     gens = []
     if tasks:
         ctx = mp.get_context("fork")
@@ -227,7 +250,8 @@ def main(argv=None):
             continue
         rep.add_gen(g)
         obs.extend(g["obligations"])
-        covers.update(g["covers"])
+        for n, lst in g["covers"].items():
+            covers.setdefault(n, []).extend(lst)
     timeout_s = entry.get("timeout_s", {}).get(tier, 20 if tier == "quick" else 120)
     results = solve_all(obs, timeout_s, tier == "thorough" and entry.get("both_solvers", True), args.jobs, seed) if obs else []
     lap("solving (%d obligations)" % len(obs))
